@@ -21,13 +21,14 @@ from vlib.runner import Violation, crash_clause
 
 ID = 'C02'
 LEVEL = 'exploration'
-RULE = ('(a) exhaustive table: %d C type spellings x {parameter, return, field, alias} x {plain, const, pointer, '
+RULE = ('(a) exhaustive table: every C type spelling of the expectation table (about 60) x {parameter, return, field, alias} x {plain, const, pointer, '
         'const pointer} evaluated on every run; (b) Hypothesis-generated un-annotated callables with 0-7 parameters '
         'drawn from roles {int, string, const string, gpointer named user_data/data/other, in-namespace callback, '
         'GDestroyNotify, GAsyncReadyCallback, GCancellable*, GError** (trailing or not), record pointer, char**} and '
         'a return role, plus bare (out)/(inout)/(out caller-allocates) direction annotations to observe the transfer '
         'default of out parameters. non-trivial = the case contains a pointer, const or callback arrangement; '
         'distinct = hash of the case')
+RULE = RULE + ' ' + 'Also every value/string spelling as a parameter declared with array syntax (T x[], T x[4], const T x[], T *x[], const T *x[]), compared with the pointer spelling C adjusts it to.'
 ASSUMPTIONS = [
     'substrate P: cmodel.to_symbols mirrors scannerparser.y (DESIGN appendix D)',
     'closure/destroy pairing is asserted only for the unambiguous adjacent arrangement (callback, user_data[, destroy]); '
